@@ -7,6 +7,7 @@ import (
 	"crypto/x509"
 	"errors"
 	"fmt"
+	"html"
 	"math/big"
 	"math/rand/v2"
 	"net/url"
@@ -397,6 +398,11 @@ func NearVariant(r *rand.Rand, s string, others ...string) string {
 			i = j
 		}
 		opts = append(opts, s[:i]+fmt.Sprintf("%%%02X", s[i])+s[i+1:], s[:i]+fmt.Sprintf("%%%02x", s[i])+s[i+1:])
+		// the value escaped once more than the transport requires (the decoded text still holds a reference)
+		opts = append(opts, s[:i]+fmt.Sprintf("&#%d;", s[i])+s[i+1:], s[:i]+fmt.Sprintf("&#x%x;", s[i])+s[i+1:])
+		if e := html.EscapeString(s); e != s {
+			opts = append(opts, e, e)
+		}
 	}
 	if i := strings.IndexAny(s, "?#"); i > 0 {
 		opts = append(opts, s[:i])
